@@ -170,7 +170,7 @@ func cmdFunc(args []string) {
 			tmp, _ := os.MkdirTemp("", "gvc")
 			var jobs []*solveJob
 			for i, o := range rep.Obls {
-				jobs = append(jobs, &solveJob{name: o.Name, text: rep.Texts[i]})
+				jobs = append(jobs, &solveJob{name: o.Name, text: rep.Texts[i], cover: o.Cover})
 				if *dump != "" {
 					os.MkdirAll(*dump, 0o755)
 					os.WriteFile(filepath.Join(*dump, fmt.Sprintf("%03d_%s.smt2", i, sanitize(o.Name))), []byte(rep.Texts[i]), 0o644)
@@ -190,6 +190,9 @@ func cmdFunc(args []string) {
 					bad++
 				}
 				fmt.Printf("  %s %-60s %-8s %-7s %5.2fs  %s\n", mark, o.Name+fmt.Sprintf(".%d", o.Inst), r.Status, r.Solver, r.Seconds, truncate(o.Detail, 90))
+				if !ok && os.Getenv("GVC_DEBUG") != "" {
+					fmt.Printf("         tried: %s\n", strings.Join(r.Tried, " "))
+				}
 				if !ok && r.Status == "sat" && len(r.Model) > 0 {
 					var ks []string
 					for k := range r.Model {
@@ -297,7 +300,7 @@ func cmdAll(args []string) {
 			continue
 		}
 		for i, o := range rep.Obls {
-			jobs = append(jobs, &solveJob{name: o.Name, text: rep.Texts[i]})
+			jobs = append(jobs, &solveJob{name: o.Name, text: rep.Texts[i], cover: o.Cover})
 			owners = append(owners, o)
 		}
 	}
